@@ -13,6 +13,7 @@ _lines = set()
 _arcs = set()
 _base_lines = set()
 _base_arcs = set()
+_dsts = {}
 _on = False
 
 
@@ -35,9 +36,14 @@ def start():
 
     def on_branch(code, src, dst):
         fn = code.co_filename
-        if "/hashstore/" in fn:
-            _arcs.add((os.path.basename(fn), code.co_qualname, code.co_firstlineno, src, dst))
-        return mon.DISABLE
+        if "/hashstore/" not in fn:
+            return mon.DISABLE
+        _arcs.add((os.path.basename(fn), code.co_qualname, code.co_firstlineno, src, dst))
+        k = (id(code), src)
+        s = _dsts.setdefault(k, set())
+        s.add(dst)
+        # DISABLE switches the *instruction* off: only once both directions of the branch were seen
+        return mon.DISABLE if len(s) > 1 else None
 
     mon.register_callback(tool, mon.events.LINE, on_line)
     mon.register_callback(tool, mon.events.BRANCH, on_branch)
